@@ -4,7 +4,8 @@
    `Repair.repair`.  See SrcTie3Repair.v for the premises and the trusted link. *)
 From MLA Require Import Limit.
 From MLA Require Import Base Stream Blocks Writer Repair SrcTie2 RepairProofs3 SrcTie3Repair.
-From MLAGen Require Src Src2 Src3r.
+From MLA Require SrcTie3Block.
+From MLAGen Require Src Src2 Src3b Src3r.
 From Coq Require Import ZifyBool ZifyNat ZifyN Lia.
 Open Scope N_scope.
 
@@ -44,14 +45,18 @@ Section Loop.
   Hypothesis HCACHE : 0 < CACHE.
   Hypothesis Hbound : RdBounded S.
 
-  (* THE TRUSTED LINK: ArchiveFileBlock::from(&mut self.src) is Blocks.parse_block *)
+  (* ArchiveFileBlock::from(&mut self.src) is the TRANSLATED block parser of gen/Src3b.v (work package
+     blockT; it used to be Blocks.parse_block, "the trusted link").  The translated `from` yields the
+     value as a Blocks.pblock; `pb_to_block` renders it in the type gen/Src2.v gives the same Rust enum
+     (variant by variant, field by field; `data: None`).  SrcTie3Block.block_from_src makes it the model's
+     parser in the three lemmas below, which is all the proofs of this file use. *)
   Definition pb_to_block (pb : pblock) : Src2.Block :=
     match pb with
     | PStart id name => Src2.BkFileStart name id | PContent id l => Src2.BkFileContent id l None
     | PEof id h => Src2.BkEndOfFile id h | PEnd => Src2.BkEndOfArchiveData
     end.
   Definition block_from (s : st S) : st S * res Src2.Block :=
-    match parse_block FNMAX T_START T_CONTENT T_EOA T_EOF S s with
+    match Src3b.ArchiveFileBlock_from S FNMAX T_START T_CONTENT T_EOA T_EOF 636 s with
     | (s', Ok pb) => (s', Ok (pb_to_block pb)) | (s', Err e) => (s', Err e) | (s', Crash c) => (s', Crash c)
     end.
 
@@ -100,11 +105,11 @@ Section Loop.
   Notation w_end := (w_end T_START T_CONTENT T_EOA T_EOF H).
 
   Lemma block_from_ok s s1 pb : parse_block s = (s1, Ok pb) -> block_from s = (s1, Ok (pb_to_block pb)).
-  Proof. intros Hp. unfold block_from. now rewrite Hp. Qed.
+  Proof. intros Hp. unfold block_from. now rewrite SrcTie3Block.block_from_src, Hp. Qed.
   Lemma block_from_err s s1 e : parse_block s = (s1, Err e) -> block_from s = (s1, Err e).
-  Proof. intros Hp. unfold block_from. now rewrite Hp. Qed.
+  Proof. intros Hp. unfold block_from. now rewrite SrcTie3Block.block_from_src, Hp. Qed.
   Lemma block_from_crash s s1 c : parse_block s = (s1, Crash c) -> block_from s = (s1, Crash c).
-  Proof. intros Hp. unfold block_from. now rewrite Hp. Qed.
+  Proof. intros Hp. unfold block_from. now rewrite SrcTie3Block.block_from_src, Hp. Qed.
   Ltac enter Hp := unfold LoopConc; cbn [block_loop rp_src rp_out rp_ids rp_names rp_done rp_hash]; rewrite Hp;
     cbn [Src3r.loop_read_block Src3r.l_src];
     first [rewrite (block_from_ok _ _ _ Hp) | rewrite (block_from_err _ _ _ Hp) | rewrite (block_from_crash _ _ _ Hp)];
@@ -296,6 +301,37 @@ Section Loop.
     - now exists c'.
   Qed.
 End Loop.
+
+(* ---------- work package blockT: the whole repair path translated ---------- *)
+(* the block parser handed to the translated `convert_to_archive` IS the translated `ArchiveFileBlock::from`
+   (gen/Src3b.v), its value rendered in gen/Src2.v's Block type *)
+Lemma block_from_is_translated FNMAX T_START T_CONTENT T_EOA T_EOF S s :
+  block_from FNMAX T_START T_CONTENT T_EOA T_EOF S s =
+  match Src3b.ArchiveFileBlock_from S FNMAX T_START T_CONTENT T_EOA T_EOF 636 s with
+  | (s', Ok pb) => (s', Ok (pb_to_block pb)) | (s', Err e) => (s', Err e) | (s', Crash c) => (s', Crash c)
+  end.
+Proof. reflexivity. Qed.
+(* ... and is the model's parser (what used to be assumed) *)
+Lemma block_from_is_model FNMAX T_START T_CONTENT T_EOA T_EOF S s :
+  block_from FNMAX T_START T_CONTENT T_EOA T_EOF S s =
+  match parse_block FNMAX T_START T_CONTENT T_EOA T_EOF S s with
+  | (s', Ok pb) => (s', Ok (pb_to_block pb)) | (s', Err e) => (s', Err e) | (s', Crash c) => (s', Crash c)
+  end.
+Proof. unfold block_from. now rewrite SrcTie3Block.block_from_src. Qed.
+Theorem convert_to_archive_sim_full {LIM : Limit} FNMAX CACHE T_START T_CONTENT T_EOA T_EOF H S :
+  0 < CACHE -> RdBounded S -> forall fuel s0 out0, RInv out0 ->
+  let g_conv := Src3r.convert_to_archive FNMAX CACHE T_START T_CONTENT T_EOA T_EOF H (footer_ser (fun f => f)) (fun _ => Ok tt) S
+                  (fun s => match Src3b.ArchiveFileBlock_from S FNMAX T_START T_CONTENT T_EOA T_EOF 636 s with
+                            | (s', Ok pb) => (s', Ok (pb_to_block pb)) | (s', Err e) => (s', Err e) | (s', Crash c) => (s', Crash c)
+                            end) in
+  match repair FNMAX CACHE T_START T_CONTENT T_EOA T_EOF H S fuel s0 (absW out0) with
+  | Ok (status, unfinished, out2) =>
+    exists l e, g_conv fuel s0 out0 = (l, Ok e) /\ status_of e = (status, unfinished) /\
+                absW (Src3r.l_output S l) = out2 /\ RInv (Src3r.l_output S l)
+  | Err e => exists l, g_conv fuel s0 out0 = (l, Err e)
+  | Crash c => exists l c', g_conv fuel s0 out0 = (l, Crash c')
+  end.
+Proof. intros HC HB fuel s0 out0 HR. exact (convert_to_archive_sim FNMAX CACHE T_START T_CONTENT T_EOA T_EOF H S HC HB fuel s0 out0 HR). Qed.
 
 (* the writer `ArchiveWriter::from_config` builds *)
 Definition aw_init : Src2.ArchiveWriter := Src2.mkAW [] (Src2.OpenedFiles [] []) [] [] 0 0.
